@@ -174,6 +174,27 @@ def all_langs(prefix):
     return [prefix + ":" + l for l in LANGS]
 
 
+def _apply_all():
+    return all_langs("apply")
+
+
 PROPS = {
+    "C01": dict(module="T2N.Props.C01", streams=_apply_all() + ["ds"], oracles=["c01"]),
+    "C02": dict(module="T2N.Props.C02", streams=["script", "tok", "text:en", "text:fr", "text:de"], oracles=["c02"]),
+    "C03": dict(module="T2N.Props.C03", streams=["ds", "script", "tok", "val:en", "val:it"], oracles=["c03"]),
+    "C04": dict(module="T2N.Props.C04", streams=_apply_all(), oracles=["c04"]),
+    "C05": dict(module="T2N.Props.C05", streams=_apply_all() + ["script"], oracles=["c05"]),
+    "C06": dict(module="T2N.Props.C06", streams=["script"] + all_langs("scan"), oracles=["c06"]),
+    "C07": dict(module="T2N.Props.C07", streams=_apply_all() + ["ds"], oracles=["c07"]),
+    "C08": dict(module="T2N.Props.C08", streams=_apply_all(), oracles=["c08"]),
+    "C09": dict(module="T2N.Props.C09", streams=["script", "scan:en", "scan:fr"], oracles=["c09"]),
+    "C10": dict(module="T2N.Props.C10", streams=["script", "annot", "text:fr", "text:en"], oracles=["c10"]),
+    "C11": dict(module="T2N.Props.C11", streams=all_langs("scan") + ["text:en", "text:de"], oracles=["c11"]),
     "C12": dict(module="T2N.Props.C12", streams=["ds"], oracles=["c12"]),
+    "C13": dict(module="T2N.Props.C13", streams=["lookup"] + all_langs("applyface") + all_langs("textface"), oracles=["c13"]),
+    "C14": dict(module="T2N.Props.C14", streams=["text:nl", "text:it"], oracles=["c14"]),
+    "C15": dict(module="T2N.Props.C15", streams=["script", "scan:en", "scan:de", "scan:fr"], oracles=["c15"]),
+    "C16": dict(module="T2N.Props.C16", streams=_apply_all(), oracles=["c16"]),
+    "C17": dict(module="T2N.Props.C17", streams=["tok", "annot", "text:en", "val:en", "val:fr"], oracles=["c17"]),
+    "C18": dict(module="T2N.Props.C18", streams=["annot", "text:en", "scan:en"], oracles=["c18"]),
 }
